@@ -145,8 +145,13 @@ def _get_initial_guess(
     """
     # TODO might be nice to merge with ALS/other CP methods
     if isinstance(init, Sequence) and not isinstance(init, str):
-        return ttb.ktensor(init).normalize("all")
+        init = ttb.ktensor(init)
     if isinstance(init, ttb.ktensor):
+        if init.shape != data.shape or init.ncomponents != rank:
+            raise ValueError(
+                f"Initial guess must have shape {data.shape} and {rank} components but "
+                f"has shape {init.shape} and {init.ncomponents} components"
+            )
         return init.copy().normalize("all")
     if init == "random":
         factor_matrices = []
